@@ -35,7 +35,7 @@ def run_check(pid, tier):
     return pid, dict(rc=rc, violation=viol[:3], seconds=round(time.time() - t, 1), tail=out.splitlines()[-1:] )
 def main():
     a = sys.argv[1:]; seed = a[0].rstrip("/"); sid = os.path.basename(seed)
-    checks = "all"; tier = "quick"; store = "--store" in a
+    checks = "all"; tier = "quick"; store = "--store" in a; harmless = "--harmless" in a
     if "--checks" in a: checks = a[a.index("--checks") + 1]
     if "--tier" in a: tier = a[a.index("--tier") + 1]
     man = json.load(open(os.path.join(ROOT, "MANIFEST.json")))
@@ -48,21 +48,33 @@ def main():
         rc, out = sh("go build ./... && go test -vet=off -count=1 ./...", timeout=2400)
         res["suite_passes_with_change"] = (rc == 0)
         if rc != 0: res["suite_output"] = out[-1500:]
-        rc, out = demo(seed); res["demo_fails_with_change"] = (rc != 0)
-        res["demo_output"] = out[-600:]
+        if harmless:
+            res["demo_fails_with_change"] = None
+        else:
+            rc, out = demo(seed); res["demo_fails_with_change"] = (rc != 0)
+            res["demo_output"] = out[-600:]
         with cf.ThreadPoolExecutor(max_workers=6) as ex:
             res["checks"] = dict(ex.map(lambda p: run_check(p, tier), plist))
     finally:
         sh("git checkout -- . && git clean -fdq -e verif_hooks.go")
     assert clean(), "/repo not clean after revert"
-    rc, out = demo(seed); res["demo_passes_without_change"] = (rc == 0)
+    if harmless:
+        res["demo_passes_without_change"] = None
+    else:
+        rc, out = demo(seed); res["demo_passes_without_change"] = (rc == 0)
     res["caught_by"] = sorted(p for p, r in res["checks"].items() if r["rc"] == 1 and r["violation"])
     res["broken_checks"] = sorted(p for p, r in res["checks"].items() if r["rc"] not in (0, 1) or (r["rc"] == 1 and not r["violation"]))
     print(json.dumps(dict(id=sid, ok_seed=res["suite_passes_with_change"] and res["demo_fails_with_change"] and res["demo_passes_without_change"],
                           caught_by=res["caught_by"], broken=res["broken_checks"])))
+    if harmless:
+        print(json.dumps(dict(id=sid, harmless=True, suite_passes=res["suite_passes_with_change"], alarms=res["caught_by"], broken=res["broken_checks"])))
+        d = os.path.join(ROOT, "seeded", sid)
+        json.dump(dict(id=sid, property="H", harmless=True, confirmed=res["suite_passes_with_change"], runs={tier: res}), open(os.path.join(d, "meta.json"), "w"), indent=1)
+        return
     if store:
         d = os.path.join(ROOT, "seeded", sid); os.makedirs(d, exist_ok=True)
-        for f in ("patch.diff", "demo_test.go"): shutil.copy(os.path.join(seed, f), d)
+        for f in ("patch.diff", "demo_test.go"):
+            if os.path.abspath(os.path.join(seed, f)) != os.path.abspath(os.path.join(d, f)): shutil.copy(os.path.join(seed, f), d)
         if os.path.exists(os.path.join(seed, "notes.md")): shutil.copy(os.path.join(seed, "notes.md"), d)
         old = {}
         mp = os.path.join(d, "meta.json")
